@@ -271,6 +271,8 @@ def run(eng, run):
     check_notify(eng, run)
     check_ctx(eng, run)
     check_cli(eng, run)
+    from sa.analyses.arms import check_dead_arms
+    check_dead_arms(eng, run, "C09.arms", ("clients.tcp", "clients.async_tcp", "lowlevel.api_async.transports.tls", "lowlevel.api_sync.transports"), 7)
 
 
 # ---------------------------------------------------------------------------------------------- self-test corpus
